@@ -40,6 +40,7 @@ INVARIANT NoExtraWithoutPrecision
 INVARIANT BestIsInput
 INVARIANT CollectedOnlyDone
 PROPERTY Terminates
+PROPERTY ImplementsAtomic
 """
 
 _seq = [0]
@@ -362,7 +363,7 @@ def l1(rep, tier):
     for variant in ("draw_in_worker", "collect_as_completed"):
         r = tlc.run("GammaRun", CFG.format(variant=variant, emit="FALSE", n=3, maxextra=1, hasprec="TRUE", workers="{1, 2}"),
                     label=f"mutant {variant}", workers=8, timeout=600, coverage=False)
-        if "ScheduleFree" not in r.violated:
+        if "ScheduleFree" not in r.violated and not any("ImplementsAtomic" in v for v in r.violated):
             raise MachineryError(f"mutant {variant} not rejected: {r.violated} {r.errors}")
         rep.extra.setdefault("mutants_killed", []).append(f"GammaRun:{variant}")
     return sorted(set(orders))
